@@ -171,6 +171,15 @@ fn gen_item(rng: &mut Rng, inst: &Instance, id: u16, tcp: bool, bufs: &mut Buffe
         }
         _ => base,
     };
+    if tcp && rng.chance(1, 14) {
+        // a request padded to a boundary length, up to the largest a length prefix can announce
+        // (trailing octets: the response is a FORMERR, but a response there must be)
+        let target = *rng.pick(&[65535usize, 65535, 65534, 65533, 65532, 32768, 16384, 16383, 4096]);
+        if req.len() < target {
+            let fill = rng.u8();
+            req.resize(target, fill);
+        }
+    }
     if !tcp && req.len() > inst.payload as usize {
         req.truncate(inst.payload as usize);
     }
@@ -285,6 +294,37 @@ fn tcp_batch(rng: &mut Rng, inst: &Instance, bufs: &mut Buffers) -> Result<Strin
         return Err(("inconclusive".into(), "read timed out".into(), Json::Null));
     }
     if got != expected {
+        // Known finding (see known_findings.json): the providers close the socket right after a
+        // request that gets no response. If the client has sent more data by then, the kernel
+        // turns that close into a reset and discards responses still in the server's send queue
+        // (Nagle / congestion window), so complete earlier responses can be lost. Recognised
+        // only in exactly that shape: the server had to close, octets followed the
+        // response-less request, and what arrived is a run of whole expected responses.
+        let mut end_of_silent = 0usize;
+        for it in &items {
+            end_of_silent += 2 + it.request.len();
+            if it.expected.is_none() {
+                break;
+            }
+        }
+        let at_boundary = {
+            let mut ok = false;
+            let mut off = 0usize;
+            for it in &items {
+                if off == got.len() {
+                    ok = true;
+                    break;
+                }
+                match &it.expected {
+                    Some(r) => off += 2 + r.len(),
+                    None => break,
+                }
+            }
+            ok
+        };
+        if closes && end_of_silent < stream_out.len() && got.len() < expected.len() && expected.starts_with(&got) && at_boundary {
+            return Err(("tcp:responses-lost-on-abortive-close".into(), format!("the server closed after a response-less request while {} more octets from the client were unread; only {} of {} expected response octets (whole responses) arrived before the reset ({} requests, write mode {})", stream_out.len() - end_of_silent, got.len(), expected.len(), n, mode), w(&got)));
+        }
         let kind = if got.len() < expected.len() && expected.starts_with(&got) {
             "tcp:stream-truncated"
         } else if got.len() > expected.len() && got.starts_with(&expected) {
